@@ -62,6 +62,11 @@ func VerifC02Graph() {
 			if verifChoose("dep", 2) == 1 {
 				dep[j][i] = true
 				on = append(on, names[i])
+				// a dependency may be listed twice (the loader accepts that): same relation
+				if verifBound("dupdeps", 0) == 1 && verifChoose("dep-listed-twice", 2) == 1 {
+					on = append(on, names[i])
+					verifReach("dependency-listed-twice")
+				}
 			}
 		}
 		tasks[names[j]] = definition.TaskDef{Script: []string{"x"}, DependsOn: on}
